@@ -300,6 +300,10 @@ func Supervise(o SupOpts) int {
 				if oc.res.Verdict == "inconclusive" {
 					inconcl = append(inconcl, fmt.Sprintf("case %d (%s): %s", i, c.Kind, oc.res.Note))
 				}
+			case oc.crashed && crashInHarness(oc.stderr):
+				// a panic whose first non-runtime frame is harness code is a bug of the check, not an observation
+				// about wharf: never a violation, never a pass
+				inconcl = append(inconcl, fmt.Sprintf("case %d (%s): the harness itself crashed: %s", i, c.Kind, strings.Join(tailLines(oc.stderr, 6), " | ")))
 			case oc.crashed:
 				evals++
 				key := "crash:" + crashSite(oc.stderr)
@@ -719,6 +723,39 @@ func crashSite(stderr string) string {
 		}
 	}
 	return reason
+}
+
+// crashInHarness says whether the panicking goroutine's first non-runtime frame belongs to the harness.
+func crashInHarness(stderr string) bool {
+	ls := strings.Split(stderr, "\n")
+	start := -1
+	for i, l := range ls {
+		if strings.HasPrefix(l, "panic:") || strings.HasPrefix(l, "fatal error:") {
+			start = i
+			break
+		}
+	}
+	if start < 0 {
+		return false
+	}
+	inG := false
+	for _, l := range ls[start:] {
+		if strings.HasPrefix(l, "goroutine ") {
+			if inG {
+				return false // only the first (panicking) goroutine counts
+			}
+			inG = true
+			continue
+		}
+		if !inG || strings.HasPrefix(l, "\t") || strings.TrimSpace(l) == "" {
+			continue
+		}
+		if strings.HasPrefix(l, "panic(") || strings.HasPrefix(l, "runtime.") || strings.HasPrefix(l, "runtime/") || strings.HasPrefix(l, "created by") {
+			continue
+		}
+		return strings.HasPrefix(l, "verif/") || strings.HasPrefix(l, "main.")
+	}
+	return false
 }
 
 var raceSplit = regexp.MustCompile(`(?m)^==================\n`)
